@@ -14,7 +14,7 @@ MCConfigs ==
                lmtpBackend : BOOLEAN, binarymime : {TRUE}, dsn : {FALSE}] :
             ~c.lmtp /\ c.lmtpBackend }
 
-MCAlphabet == {"greet", "mail", "rcpt", "data", "bdat", "simple", "bad", "quit", "long", "panic"}
+MCAlphabet == {"greet", "mail", "rcpt", "data", "bdat", "simple", "bad", "quit", "long", "panic", "cut"}
 
 \* Edge dump: every generated transition is printed once (VIEW hides `last`).
 DumpEdge ==
